@@ -72,7 +72,7 @@ func (w *World) batchInputs(classes []string, rotate bool) ([]crypto.PublicKey, 
 		case "idsig":
 			sigs[i] = ref.G1Inf.Compress()
 		case "idkey":
-			pks[i] = w.PK(map[string]int{}, w.Rng.Intn(3))
+			pks[i] = w.PK(map[string]int{}, w.Rng.Intn(6))
 			if w.Rng.Intn(2) == 0 {
 				sigs[i] = ref.G1Inf.Compress()
 			} else {
